@@ -57,7 +57,7 @@ GateHooks  == {"before_start", "before_spawn", "after_spawn", "after_start"}
 
 NoCtx == [on |-> FALSE, cid |-> "", cmd |-> "", lname |-> "", hasname |-> FALSE, pattern |-> FALSE, pid |-> -1, signum |-> -1,
           children |-> FALSE, recursive |-> FALSE, childpid |-> -1, G |-> -1, nostop |-> FALSE,
-          graceful |-> TRUE, seq |-> FALSE, cast |-> FALSE, waiting |-> FALSE, busy |-> FALSE]
+          graceful |-> TRUE, seq |-> FALSE, cast |-> FALSE, waiting |-> FALSE, busy |-> FALSE, file |-> <<>>]
 NoOp  == [slot |-> "", cmd |-> "", lname |-> "", hasname |-> FALSE, pattern |-> FALSE, mark |-> 0, t0 |-> 0, faulty |-> FALSE,
           gatefail |-> {}, nostop |-> FALSE, graceful |-> TRUE, seq |-> FALSE]
 NoTerm == [open |-> FALSE, sig |-> 0, t0 |-> 0, G |-> 0, killed |-> FALSE, kids |-> {}]
@@ -107,13 +107,17 @@ GhostInit ==
     reloaded |-> FALSE,        \* a reloadconfig operation has run
     drifted  |-> FALSE,        \* ... and it put two names that are equal ignoring case into the list (D9R)
     dsigBusy |-> FALSE,        \* a termination signal arrived while an exclusive operation held the slot (D6)         \* pids signalled while handling the current signal/kill request
+    fm       |-> FALSE,        \* the arbiter was booted from a configuration file the recorder knows (file mode)
+    file     |-> <<>>,         \* the watcher sections the daemon last loaded (boot, or the last completed reloadconfig)
+    rl       |-> [on |-> FALSE, file |-> <<>>, w0 |-> <<>>],      \* the reloadconfig in flight: its file, the watchers before
     stepBad  |-> {} ]
 
 ---------------------------------------------------------------------------
 \* configuration lookups
 
-CfgW(g, lname) == IF \E i \in 1..Len(g.cfg.ws) : g.cfg.ws[i].n = lname
-                  THEN g.cfg.ws[CHOOSE i \in 1..Len(g.cfg.ws) : g.cfg.ws[i].n = lname]
+CfgKey(c) == IF "ln" \in DOMAIN c THEN c.ln ELSE c.n       \* (lookups are by lower-cased name)
+CfgW(g, lname) == IF \E i \in 1..Len(g.cfg.ws) : CfgKey(g.cfg.ws[i]) = lname
+                  THEN g.cfg.ws[CHOOSE i \in 1..Len(g.cfg.ws) : CfgKey(g.cfg.ws[i]) = lname]
                   ELSE [n |-> lname, np |-> 0, G |-> 0, W |-> 0, sing |-> FALSE, resp |-> TRUE, auto |-> TRUE,
                         prio |-> 0, ssig |-> 15, sch |-> FALSE, mage |-> 0, hup |-> FALSE, od |-> FALSE,
                         hooks |-> <<>>]
@@ -175,7 +179,7 @@ Upd(g, o, ln, o2) ==
                                children |-> ln.q.children, recursive |-> ln.q.recursive,
                                childpid |-> ln.q.childpid, G |-> ln.q.G, nostop |-> ln.q.nostop,
                                graceful |-> ln.q.graceful, seq |-> ln.q.sequential, cast |-> ln.q.cast, waiting |-> ln.q.waiting,
-                               busy |-> o2.slot # ""]
+                               busy |-> o2.slot # "", file |-> ln.q.file]
                 ELSE IF ln.cb = 0 \/ ln.k = "reqend" THEN NoCtx ELSE g.ctx
       reqs1  == IF isReq
                 THEN Append(g.reqs, [cid |-> ln.x, mid |-> ln.q.mid, cast |-> ln.q.cast, n |-> 0, t0 |-> ln.t,
@@ -247,6 +251,14 @@ Upd(g, o, ln, o2) ==
                 \/ acq /\ o2.slot = "arbiter_stop"
       g1 == [g EXCEPT
                !.cfg = IF ln.k = "init" THEN ln.cfg ELSE @,
+               !.fm = IF ln.k = "init" THEN ("fm" \in DOMAIN ln.cfg /\ ln.cfg.fm) ELSE @,
+               !.file = IF ln.k = "init" THEN (IF "file" \in DOMAIN ln.cfg THEN ln.cfg.file ELSE <<>>)
+                        ELSE IF rel /\ o.slot = "arbiter_reload_config" /\ g.rl.on /\ ~g.op.faulty THEN g.rl.file
+                        ELSE @,
+               !.rl = IF acq /\ o2.slot = "arbiter_reload_config" /\ g.ctx.on /\ g.ctx.cmd = "reloadconfig"
+                      THEN [on |-> TRUE, file |-> g.ctx.file, w0 |-> o2.w]
+                      ELSE IF rel /\ o.slot = "arbiter_reload_config" THEN [on |-> FALSE, file |-> <<>>, w0 |-> <<>>]
+                      ELSE @,
                !.t = ln.t,
                \* completed passes that BEGAN after the last stimulus (saturates at 3)
                !.passes = IF stim THEN 0 ELSE IF PassEnd(o, o2) /\ g.passFresh /\ @ < 3 THEN @ + 1 ELSE @,
@@ -605,6 +617,31 @@ C18_exact(g, ln) ==
       /\ (~g.ctxDie /\ CfgW(g, g.ctx.lname).hooks = <<>> /\ g.ctx.signum >= 0) =>
             { p \in Addressed(g) : SnapSt(g, p) \in {"run", "zombie"} } \subseteq g.sigTargets
 
+\* ---------------- C12 (schedule half: reloadconfig with deaths, periodic checks and read-only requests in between;
+\*                  the daemon is booted from a real file and only the file and reloadconfig change its settings)
+RlDone(g, o, o2) == g.fm /\ g.rl.on /\ o.slot = "arbiter_reload_config" /\ o2.slot # o.slot /\ ~g.op.faulty /\ ~g.blocked
+                    /\ ~(\E j \in 1..Len(g.rl.file) : g.rl.file[j].sing /\ g.rl.file[j].np > 1)      \* (a refused edit)
+WByLn(ws, lname) == { i \in 1..Len(ws) : ws[i].ln = lname }
+\* when the reload lets go of the slot the directory is the file: the same names, each with the file's numprocesses
+\* and settings (ver = the cmd's version tag, standing for the keys the projection does not show)
+C12_conv(g, o, o2) ==
+   RlDone(g, o, o2) =>
+      /\ \A j \in 1..Len(g.rl.file) : \E i \in WIdx(o2) :
+            /\ o2.w[i].ln = g.rl.file[j].ln /\ o2.w[i].np = g.rl.file[j].np
+            /\ o2.w[i].ver = g.rl.file[j].ver /\ o2.w[i].G = g.rl.file[j].G /\ o2.w[i].W = g.rl.file[j].W
+            /\ o2.w[i].ssig = g.rl.file[j].ssig /\ o2.w[i].sch = g.rl.file[j].sch /\ o2.w[i].sing = g.rl.file[j].sing
+            /\ o2.w[i].resp = g.rl.file[j].resp /\ o2.w[i].hup = g.rl.file[j].hup
+            /\ \E x \in 1..Len(o2.wl) : o2.wl[x] = o2.w[i].n
+      /\ \A x \in 1..Len(o2.wl) : \E j \in 1..Len(g.rl.file) : g.rl.file[j].n = o2.wl[x]
+\* a section that is word for word what the daemon loaded before keeps every worker that is still alive
+C12_keep(g, o, o2) ==
+   RlDone(g, o, o2) =>
+      \A j \in 1..Len(g.rl.file) :
+         (\E j0 \in 1..Len(g.file) : g.file[j0] = g.rl.file[j]) =>
+            \A i0 \in WByLn(g.rl.w0, g.rl.file[j].ln) :
+               \A p \in Pids(g.rl.w0[i0]) : KSt(o2, p) = "run" =>
+                  \E i \in WIdx(o2) : o2.w[i].ln = g.rl.file[j].ln /\ p \in Pids(o2.w[i])
+
 \* ---------------- C19
 C19_order(g, o, ln) ==
    (ln.k = "spawn" /\ o.slot \in {"arbiter_start_watchers", "arbiter_restart"} /\ g.lastSpawn.w # ""
@@ -639,6 +676,7 @@ Clauses(g, o, ln, o2, g2) ==
     C03_first |-> C03_first(g, o, ln), C03_notearly |-> C03_notearly(g, ln), C03_notdead |-> C03_notdead(g, ln),
     C03_prompt |-> C03_prompt(g, o, ln), C03_kids |-> C03_kids(g, g2, o, o2),
     C03_stopsig |-> C03_stopsig(g, g2, o, o2),
+    C12_conv |-> C12_conv(g, o, o2), C12_keep |-> C12_keep(g, o, o2),
     C04_list |-> C04_list(g2, o2, ln), C04_count |-> C04_count(g2, o2, ln), C04_owned |-> C04_owned(g2, o2, ln),
     C04_status |-> C04_status(o, ln, o2),
     C05_noblock |-> C05_noblock(ln), C05_readnow |-> C05_readnow(g, ln), C05_bound |-> C05_bound(g, o, ln),
